@@ -510,7 +510,9 @@ Require Verif.Tie.Loops.Nuget.
 Require Verif.Tie.Loops.Pypi.
 Require Verif.Tie.Loops.Rpm.
 Require Verif.Tie.Loops.Semver.
+Require Verif.Tie.Parse.AlpineRange.
 Require Verif.Tie.Parse.Alpm.
+Require Verif.Tie.Parse.AlpmRange.
 Require Verif.Tie.Parse.Apache.
 Require Verif.Tie.Parse.ApacheRange.
 Require Verif.Tie.Parse.Cargo.
@@ -518,17 +520,26 @@ Require Verif.Tie.Parse.Conan.
 Require Verif.Tie.Parse.CranRange.
 Require Verif.Tie.Parse.Debian.
 Require Verif.Tie.Parse.DebianRange.
+Require Verif.Tie.Parse.DebianRangeClosed.
 Require Verif.Tie.Parse.Gem.
 Require Verif.Tie.Parse.Gentoo.
 Require Verif.Tie.Parse.GentooRange.
+Require Verif.Tie.Parse.GentooRangeClosed.
 Require Verif.Tie.Parse.Github.
+Require Verif.Tie.Parse.GithubRange.
+Require Verif.Tie.Parse.GolangRange.
 Require Verif.Tie.Parse.Hex.
+Require Verif.Tie.Parse.HexRange.
 Require Verif.Tie.Parse.Mattermost.
+Require Verif.Tie.Parse.MattermostRange.
 Require Verif.Tie.Parse.Maven.
 Require Verif.Tie.Parse.Npm.
+Require Verif.Tie.Parse.NpmRangeClosed.
 Require Verif.Tie.Parse.Nuget.
+Require Verif.Tie.Parse.NugetRangeClosed.
 Require Verif.Tie.Parse.Rpm.
 Require Verif.Tie.Parse.RpmRange.
+Require Verif.Tie.Parse.RpmRangeClosed.
 Require Verif.Tie.Parse.Semver.
 Definition C06_tie_loops_alpine_hasLeadingZero_no_panic := Verif.Tie.Loops.Alpine.loops_alpine_hasLeadingZero_no_panic.
 Print Assumptions C06_tie_loops_alpine_hasLeadingZero_no_panic.
@@ -582,10 +593,24 @@ Definition C06_tie_loops_rpm_compareRPMVersionString_no_panic := Verif.Tie.Loops
 Print Assumptions C06_tie_loops_rpm_compareRPMVersionString_no_panic.
 Definition C06_tie_loops_semver_comparePrerelease_no_panic := Verif.Tie.Loops.Semver.loops_semver_comparePrerelease_no_panic.
 Print Assumptions C06_tie_loops_semver_comparePrerelease_no_panic.
+Definition C06_tie_parse_alpine_parseConstraint := Verif.Tie.Parse.AlpineRange.tie_parse_alpine_parseConstraint.
+Print Assumptions C06_tie_parse_alpine_parseConstraint.
+Definition C06_tie_parse_alpine_parseConstraints := Verif.Tie.Parse.AlpineRange.tie_parse_alpine_parseConstraints.
+Print Assumptions C06_tie_parse_alpine_parseConstraints.
+Definition C06_tie_parse_alpine_newversionrange := Verif.Tie.Parse.AlpineRange.tie_parse_alpine_newversionrange.
+Print Assumptions C06_tie_parse_alpine_newversionrange.
 Definition C06_tie_newversion_alpm_no_panic := Verif.Tie.Parse.Alpm.newversion_alpm_no_panic.
 Print Assumptions C06_tie_newversion_alpm_no_panic.
 Definition C06_tie_parse_alpm_newversion := Verif.Tie.Parse.Alpm.tie_parse_alpm_newversion.
 Print Assumptions C06_tie_parse_alpm_newversion.
+Definition C06_tie_parse_alpm_parseConstraint := Verif.Tie.Parse.AlpmRange.tie_parse_alpm_parseConstraint.
+Print Assumptions C06_tie_parse_alpm_parseConstraint.
+Definition C06_tie_parse_alpm_parseConstraints := Verif.Tie.Parse.AlpmRange.tie_parse_alpm_parseConstraints.
+Print Assumptions C06_tie_parse_alpm_parseConstraints.
+Definition C06_tie_parse_alpm_newversionrange := Verif.Tie.Parse.AlpmRange.tie_parse_alpm_newversionrange.
+Print Assumptions C06_tie_parse_alpm_newversionrange.
+Definition C06_tie_parse_alpm_newversionrange_model := Verif.Tie.Parse.AlpmRange.tie_parse_alpm_newversionrange_model.
+Print Assumptions C06_tie_parse_alpm_newversionrange_model.
 Definition C06_tie_newversion_apache_no_panic := Verif.Tie.Parse.Apache.newversion_apache_no_panic.
 Print Assumptions C06_tie_newversion_apache_no_panic.
 Definition C06_tie_parse_apache_newversion := Verif.Tie.Parse.Apache.tie_parse_apache_newversion.
@@ -602,6 +627,10 @@ Definition C06_tie_parse_cargo_newversion := Verif.Tie.Parse.Cargo.tie_parse_car
 Print Assumptions C06_tie_parse_cargo_newversion.
 Definition C06_tie_newversion_conan_no_panic := Verif.Tie.Parse.Conan.newversion_conan_no_panic.
 Print Assumptions C06_tie_newversion_conan_no_panic.
+Definition C06_tie_newversion_matched := Verif.Tie.Parse.Conan.newversion_matched.
+Print Assumptions C06_tie_newversion_matched.
+Definition C06_tie_newversion_unmatched := Verif.Tie.Parse.Conan.newversion_unmatched.
+Print Assumptions C06_tie_newversion_unmatched.
 Definition C06_tie_parse_conan_newversion := Verif.Tie.Parse.Conan.tie_parse_conan_newversion.
 Print Assumptions C06_tie_parse_conan_newversion.
 Definition C06_tie_parse_cran_parseConstraint := Verif.Tie.Parse.CranRange.tie_parse_cran_parseConstraint.
@@ -620,6 +649,10 @@ Definition C06_tie_parse_debian_parseConstraints := Verif.Tie.Parse.DebianRange.
 Print Assumptions C06_tie_parse_debian_parseConstraints.
 Definition C06_tie_parse_debian_newversionrange := Verif.Tie.Parse.DebianRange.tie_parse_debian_newversionrange.
 Print Assumptions C06_tie_parse_debian_newversionrange.
+Definition C06_tie_newversionrange_debian_no_panic_closed := Verif.Tie.Parse.DebianRangeClosed.newversionrange_debian_no_panic_closed.
+Print Assumptions C06_tie_newversionrange_debian_no_panic_closed.
+Definition C06_tie_parse_debian_newversionrange_closed := Verif.Tie.Parse.DebianRangeClosed.tie_parse_debian_newversionrange_closed.
+Print Assumptions C06_tie_parse_debian_newversionrange_closed.
 Definition C06_tie_newversion_gem_no_panic := Verif.Tie.Parse.Gem.newversion_gem_no_panic.
 Print Assumptions C06_tie_newversion_gem_no_panic.
 Definition C06_tie_parse_gem_parseSegments := Verif.Tie.Parse.Gem.tie_parse_gem_parseSegments.
@@ -636,14 +669,44 @@ Definition C06_tie_parse_gentoo_parseRange := Verif.Tie.Parse.GentooRange.tie_pa
 Print Assumptions C06_tie_parse_gentoo_parseRange.
 Definition C06_tie_parse_gentoo_newversionrange := Verif.Tie.Parse.GentooRange.tie_parse_gentoo_newversionrange.
 Print Assumptions C06_tie_parse_gentoo_newversionrange.
+Definition C06_tie_newversionrange_gentoo_no_panic_closed := Verif.Tie.Parse.GentooRangeClosed.newversionrange_gentoo_no_panic_closed.
+Print Assumptions C06_tie_newversionrange_gentoo_no_panic_closed.
+Definition C06_tie_parse_gentoo_newversionrange_closed := Verif.Tie.Parse.GentooRangeClosed.tie_parse_gentoo_newversionrange_closed.
+Print Assumptions C06_tie_parse_gentoo_newversionrange_closed.
 Definition C06_tie_newversion_github_no_panic := Verif.Tie.Parse.Github.newversion_github_no_panic.
 Print Assumptions C06_tie_newversion_github_no_panic.
 Definition C06_tie_parse_github_newversion := Verif.Tie.Parse.Github.tie_parse_github_newversion.
 Print Assumptions C06_tie_parse_github_newversion.
+Definition C06_tie_parse_github_parseConstraint := Verif.Tie.Parse.GithubRange.tie_parse_github_parseConstraint.
+Print Assumptions C06_tie_parse_github_parseConstraint.
+Definition C06_tie_parse_github_parseConstraints := Verif.Tie.Parse.GithubRange.tie_parse_github_parseConstraints.
+Print Assumptions C06_tie_parse_github_parseConstraints.
+Definition C06_tie_parse_github_newversionrange := Verif.Tie.Parse.GithubRange.tie_parse_github_newversionrange.
+Print Assumptions C06_tie_parse_github_newversionrange.
+Definition C06_tie_parse_github_newversionrange_model := Verif.Tie.Parse.GithubRange.tie_parse_github_newversionrange_model.
+Print Assumptions C06_tie_parse_github_newversionrange_model.
+Definition C06_tie_parse_golang_parseSingleGoConstraint := Verif.Tie.Parse.GolangRange.tie_parse_golang_parseSingleGoConstraint.
+Print Assumptions C06_tie_parse_golang_parseSingleGoConstraint.
+Definition C06_tie_parse_golang_parseGoRange := Verif.Tie.Parse.GolangRange.tie_parse_golang_parseGoRange.
+Print Assumptions C06_tie_parse_golang_parseGoRange.
+Definition C06_tie_parse_golang_newversionrange := Verif.Tie.Parse.GolangRange.tie_parse_golang_newversionrange.
+Print Assumptions C06_tie_parse_golang_newversionrange.
 Definition C06_tie_newversion_hex_no_panic := Verif.Tie.Parse.Hex.newversion_hex_no_panic.
 Print Assumptions C06_tie_newversion_hex_no_panic.
+Definition C06_tie_parse_hex_parseConstraint := Verif.Tie.Parse.HexRange.tie_parse_hex_parseConstraint.
+Print Assumptions C06_tie_parse_hex_parseConstraint.
+Definition C06_tie_parse_hex_parseConstraints := Verif.Tie.Parse.HexRange.tie_parse_hex_parseConstraints.
+Print Assumptions C06_tie_parse_hex_parseConstraints.
+Definition C06_tie_parse_hex_newversionrange := Verif.Tie.Parse.HexRange.tie_parse_hex_newversionrange.
+Print Assumptions C06_tie_parse_hex_newversionrange.
 Definition C06_tie_newversion_mattermost_no_panic := Verif.Tie.Parse.Mattermost.newversion_mattermost_no_panic.
 Print Assumptions C06_tie_newversion_mattermost_no_panic.
+Definition C06_tie_parse_mattermost_parseConstraint := Verif.Tie.Parse.MattermostRange.tie_parse_mattermost_parseConstraint.
+Print Assumptions C06_tie_parse_mattermost_parseConstraint.
+Definition C06_tie_parse_mattermost_parseConstraints := Verif.Tie.Parse.MattermostRange.tie_parse_mattermost_parseConstraints.
+Print Assumptions C06_tie_parse_mattermost_parseConstraints.
+Definition C06_tie_parse_mattermost_newversionrange := Verif.Tie.Parse.MattermostRange.tie_parse_mattermost_newversionrange.
+Print Assumptions C06_tie_parse_mattermost_newversionrange.
 Definition C06_tie_newversion_maven_no_panic := Verif.Tie.Parse.Maven.newversion_maven_no_panic.
 Print Assumptions C06_tie_newversion_maven_no_panic.
 Definition C06_tie_parse_maven_isValidMavenVersion := Verif.Tie.Parse.Maven.tie_parse_maven_isValidMavenVersion.
@@ -654,10 +717,14 @@ Definition C06_tie_newversion_npm_no_panic := Verif.Tie.Parse.Npm.newversion_npm
 Print Assumptions C06_tie_newversion_npm_no_panic.
 Definition C06_tie_parse_npm_newversion := Verif.Tie.Parse.Npm.tie_parse_npm_newversion.
 Print Assumptions C06_tie_parse_npm_newversion.
+Definition C06_tie_newversionrange_npm_no_panic_closed := Verif.Tie.Parse.NpmRangeClosed.newversionrange_npm_no_panic_closed.
+Print Assumptions C06_tie_newversionrange_npm_no_panic_closed.
 Definition C06_tie_newversion_nuget_no_panic := Verif.Tie.Parse.Nuget.newversion_nuget_no_panic.
 Print Assumptions C06_tie_newversion_nuget_no_panic.
 Definition C06_tie_parse_nuget_newversion := Verif.Tie.Parse.Nuget.tie_parse_nuget_newversion.
 Print Assumptions C06_tie_parse_nuget_newversion.
+Definition C06_tie_newversionrange_nuget_no_panic_closed := Verif.Tie.Parse.NugetRangeClosed.newversionrange_nuget_no_panic_closed.
+Print Assumptions C06_tie_newversionrange_nuget_no_panic_closed.
 Definition C06_tie_newversion_rpm_no_panic := Verif.Tie.Parse.Rpm.newversion_rpm_no_panic.
 Print Assumptions C06_tie_newversion_rpm_no_panic.
 Definition C06_tie_parse_rpm_newversion := Verif.Tie.Parse.Rpm.tie_parse_rpm_newversion.
@@ -668,6 +735,10 @@ Definition C06_tie_parse_rpm_parseConstraints := Verif.Tie.Parse.RpmRange.tie_pa
 Print Assumptions C06_tie_parse_rpm_parseConstraints.
 Definition C06_tie_parse_rpm_newversionrange := Verif.Tie.Parse.RpmRange.tie_parse_rpm_newversionrange.
 Print Assumptions C06_tie_parse_rpm_newversionrange.
+Definition C06_tie_newversionrange_rpm_no_panic_closed := Verif.Tie.Parse.RpmRangeClosed.newversionrange_rpm_no_panic_closed.
+Print Assumptions C06_tie_newversionrange_rpm_no_panic_closed.
+Definition C06_tie_parse_rpm_newversionrange_closed := Verif.Tie.Parse.RpmRangeClosed.tie_parse_rpm_newversionrange_closed.
+Print Assumptions C06_tie_parse_rpm_newversionrange_closed.
 Definition C06_tie_newversion_semver_no_panic := Verif.Tie.Parse.Semver.newversion_semver_no_panic.
 Print Assumptions C06_tie_newversion_semver_no_panic.
 Definition C06_tie_parse_semver_newversion := Verif.Tie.Parse.Semver.tie_parse_semver_newversion.
